@@ -17,6 +17,7 @@ import (
 	"reflect"
 	"strconv"
 	"strings"
+	"time"
 	"unsafe"
 
 	"github.com/fatih/color"
@@ -87,6 +88,13 @@ var c18Templates = []string{
 	`(let [x N] (if x))`,
 	`((fn [a b] (do (trace! b) (if false))) 1 N)`,
 	`(list (if false N) (if nil N))`,
+	// a Go panic raised by the evaluator itself, crossing a callback builtin before it reaches try
+	`(try (map (fn [x] (fn)) [N]) (catch e (str e)))`,
+	`(try (apply (fn [] ((fn [&] 1))) ()) (catch e (list (type? e) (str e))))`,
+	`(try (reduce (fn [a x] (defmacro mbad 1)) 0 [N]) (catch e (str e)))`,
+	`(try (swap! (atom N) (fn [v] (fn))) (catch e (str e)))`,
+	// a tail loop far deeper than the recursion of the other programs
+	`(do (def sum-to (fn [n acc] (if (= n 0) acc (sum-to (- n 1) (+ acc n))))) (sum-to (+ 4000 N) 0))`,
 	// forms with more than ten items
 	`(str 1 2 3 4 5 6 7 8 9 10 N 12)`,
 	`(do (trace! 1) (trace! 2) (trace! 3) (trace! 4) (trace! 5) (trace! 6) (trace! 7) (trace! 8) (trace! 9) (trace! 10) (trace! 11) N)`,
@@ -157,12 +165,19 @@ func c18Once(ast func() types.MalType, plan c03Plan, cmd func(i int) debuggertyp
 	return c18OnceWith(ast, plan, cmd, spy, false)
 }
 
+// bodyOnly: probe sites of the current program at which a budget-timeout fault may be injected (set by Run).
+var c18BodyOnly map[int]bool
+
 func c18OnceWith(ast func() types.MalType, plan c03Plan, cmd func(i int) debuggertypes.Command, spy *stepSpy, shipped bool) c18Exec {
+	bodyOnly := c18BodyOnly
+	if bodyOnly == nil {
+		bodyOnly = map[int]bool{}
+	}
 	s := NewSim(&Tape{Replay: true}, SimCfg{StarveID: -1})
 	h := &Harness{S: s, Canon: canon03}
 	e := NewEnv()
 	h.Install(e)
-	rt := &c03Rt{fired: map[string]int{}, plan: plan, rawPanicOK: map[int]bool{}, bodyOnly: map[int]bool{}}
+	rt := &c03Rt{fired: map[string]int{}, plan: plan, rawPanicOK: map[int]bool{}, bodyOnly: bodyOnly}
 	call.CallOverrideFN(e, "probe!", func(ctx context.Context, i int) (types.MalType, error) { return rt.probe(ctx, i, false) })
 	e.Set(types.Symbol{Val: "probe-raw!"}, types.Func{Fn: func(ctx context.Context, a []types.MalType) (types.MalType, error) {
 		return rt.probe(ctx, a[0].(int), true)
@@ -176,7 +191,10 @@ func c18OnceWith(ast func() types.MalType, plan c03Plan, cmd func(i int) debugge
 	if spy == nil {
 		spy = &stepSpy{}
 	}
-	runCtx, runCancel := context.WithCancel(context.Background())
+	// under a deadline of one simulated hour: nothing consumes simulated time except a budget-timeout fault
+	// (a probe that waits until the context it was handed ends), which makes the try form's share of the
+	// deadline observable
+	runCtx, runCancel := context.WithTimeout(context.Background(), time.Hour)
 	defer runCancel()
 	spy.budget, spy.cancel = 300000, runCancel
 	simhook.Install(spy)
@@ -271,14 +289,16 @@ func (c18) Run(tp *Tape, opt RunOpt) *RunOut {
 	defer func() { os.Stdout = saved }()
 
 	var src string
+	c18BodyOnly = nil
 	plan := c03Plan{}
 	kind := tp.Weighted(LaneWork, []int{3, 3})
 	if kind == 0 {
 		g := &c03Gen{tp: tp}
 		root := g.try(0, false)
 		src = "(let [r " + root.render() + "] (list r e))"
+		c18BodyOnly = rawPanicSites(root, true)
 		if g.sites > 0 && tp.Chance(LaneWork, 2, 3) {
-			plan[1+tp.Draw(LaneWork, g.sites)] = c03Faults[1+tp.Draw(LaneWork, len(c03Faults)-2)] // not budget-timeout: no deadline here
+			plan[1+tp.Draw(LaneWork, g.sites)] = c03Faults[1+tp.Draw(LaneWork, len(c03Faults)-1)]
 		}
 		out.Stats["programs:try-nest"]++
 	} else {
